@@ -41,16 +41,22 @@ theorem stoppedFirst_none {x : Send} :
   simp only [Gen.writeStoppedFirst, Bool.true_and]
   cases x.isWritable <;> simp
 
+/-- the closed-half test of `write_source` fires exactly on a half that is no longer writable -/
+theorem closedFirst_iff {x : Send} : x.closedFirst = true ↔ x.isWritable = false := by
+  unfold Send.closedFirst
+  simp [Gen.writeClosedFirst]
+
 /-- a refused write on an open connection: no connection-level room, or the stream refused, or the
-    peer had stopped it -/
+    peer had stopped it, or the half is finished / reset -/
 theorem write_err_cases {s s' s1 : State} {id n : Nat} {x : Send} {e : WriteErr}
     (h : s.write id n = some (s', .error e)) (hg : s.getOrInsertSend id = some (x, s1))
     (hc : s.connClosed = false) :
     (Gen.writeLimit s.maxData s.dataSent s.sendWindow s.unackedData = 0 ∧ e = .blocked ∧
-      x.stoppedFirst = none) ∨
+      x.stoppedFirst = none ∧ x.closedFirst = false) ∨
     (Gen.writeLimit s.maxData s.dataSent s.sendWindow s.unackedData ≠ 0 ∧
       x.write n (Gen.writeLimit s.maxData s.dataSent s.sendWindow s.unackedData) = some (.error e)) ∨
-    (∃ c, x.stoppedFirst = some c ∧ e = .stopped c) := by
+    (∃ c, x.stoppedFirst = some c ∧ e = .stopped c) ∨
+    (x.closedFirst = true ∧ e = .closedStream) := by
   unfold State.write at h
   osplit h
   all_goals try (have := ‹s.connClosed = true›; rw [hc] at this; contradiction)
@@ -65,8 +71,10 @@ theorem write_err_cases {s s' s1 : State} {id n : Nat} {x : Send} {e : WriteErr}
     osplit hl
     subst hl
     first
-      | (right; right; exact ⟨_, ‹Send.stoppedFirst _ = some _›, by simpa using h.2.symm⟩)
-      | (left; exact ⟨‹_ = 0›, by simpa using h.2.symm, ‹Send.stoppedFirst _ = none›⟩)
+      | (right; right; right; exact ⟨‹Send.closedFirst _ = true›, by simpa using h.2.symm⟩)
+      | (right; right; left; exact ⟨_, ‹Send.stoppedFirst _ = some _›, by simpa using h.2.symm⟩)
+      | (left; exact ⟨‹_ = 0›, by simpa using h.2.symm, ‹Send.stoppedFirst _ = none›,
+          by simpa using ‹¬Send.closedFirst _ = true›⟩)
       | (right; left
          have hw := ‹Send.write _ _ _ = some (Except.error _)›
          simp only [Except.error.injEq] at h
@@ -89,7 +97,9 @@ theorem write_decision {s s' s1 : State} {id n : Nat} {x : Send} {r : Except Wri
         (x.maxData - x.pending.offset) = 0 := by simp only [natMin_eq]; omega
     simp only [this, ↓reduceIte, hk]
   | error e =>
-    rcases write_err_cases h hg hc with ⟨h0, rfl, _⟩ | ⟨_, hx⟩ | ⟨c, hsf, _⟩
+    rcases write_err_cases h hg hc with ⟨h0, rfl, _⟩ | ⟨_, hx⟩ | ⟨c, hsf, _⟩ | ⟨hcf, _⟩
+    rotate_right
+    · rw [closedFirst_iff.mp hcf] at hw; contradiction
     · simp [h0, natMin_eq]
     · rcases Send.write_err hx with ⟨hnw, _⟩ | ⟨_, c, hsr, _⟩ | ⟨_, _, hb, rfl⟩
       · rw [hw] at hnw; contradiction
